@@ -152,7 +152,7 @@ func ruleY5(c *Ctx, rule string) {
 		return
 	}
 	if len(dec) == 0 {
-		r.Finding(rule, "yaml/comment-line-pattern", c.P.pos(dfn.Pos()), "the decoder's leading-content scan no longer uses a comment-line pattern: the anchor of this rule moved")
+		r.Undecided(rule, "yaml/comment-line-pattern", c.P.pos(dfn.Pos()), "the decoder's leading-content scan no longer uses a comment-line pattern: the anchor of this rule moved")
 		return
 	}
 	var missing []string
@@ -1284,7 +1284,7 @@ func ruleK7(c *Ctx, rule string) {
 	}
 	// (b) per-rune test
 	if rng == nil || rng.Key == nil || rng.Value == nil {
-		r.Finding(rule, "needsQuoting/rune-test", c.P.pos(fd.Pos()), "needsQuoting no longer ranges over the runes of the key with index and rune: the identifier test cannot be located")
+		r.Undecided(rule, "needsQuoting/rune-test", c.P.pos(fd.Pos()), "needsQuoting no longer ranges over the runes of the key with index and rune: the identifier test cannot be located")
 		return
 	}
 	keyID, ok1 := rng.Key.(*ast.Ident)
